@@ -19,6 +19,8 @@ Proof. intros [] [o|]; reflexivity. Qed.
 Section Proofs.
   Variable T : vtables.
   Variable nm : naive_mode.
+  Variable cp : sver -> ustring -> pval -> pval.        (* clean_prop: arbitrary *)
+  Variable ck : sver -> pdict -> option string.          (* ctor_check: arbitrary *)
 
   (* ---- parse_ts ---- *)
   Lemma parse_ts_dt : forall v l o,
@@ -56,16 +58,16 @@ Section Proofs.
   Definition revoked_flag (d : pdict) : bool :=
     match plookup (u "revoked") d with Some r => truthy r | None => false end.
 
-  Lemma new_version_ok : forall c d ch now d', new_version T nm c d ch now = Ok d' ->
+  Lemma new_version_ok : forall c d ch now d', new_version T nm cp ck c d ch now = Ok d' ->
     exists v locked old,
       check_versionable T c d = Ok v /\ revoked_flag d = false /\ sco_locked T d = Ok locked /\
       existsb (fun k => has_key k ch) (t_unmod T ++ locked) = false /\
       parse_ts nm v (version_time d) = Ok old /\
       ((exists s nmv dlt, plookup kmod ch = Some s /\ parse_ts nm v (Some s) = Ok nmv /\
                           ts_diff nmv old = Some dlt /\ 0 < dlt /\
-                          construct nm c (drop_none (update d ch)) = Ok d')
+                          construct nm cp ck c (drop_none (update d ch)) = Ok d')
        \/ (exists l o, plookup kmod ch = None /\ fudge v old now = Ok (l, o) /\
-                       construct nm c (drop_none (update d (ch ++ [(kmod, PDt l o)]))) = Ok d')).
+                       construct nm cp ck c (drop_none (update d (ch ++ [(kmod, PDt l o)]))) = Ok d')).
   Proof.
     intros c d ch now d' H. unfold new_version in H.
     destruct (check_versionable T c d) as [v|e] eqn:CV; [|discriminate].
@@ -100,31 +102,54 @@ Section Proofs.
   Proof. intros v0 d v H. apply check_versionable_ver in H. cbn in H. now inversion H. Qed.
 
   (* ---- the dictionary the constructor receives, and what it keeps ---- *)
-  Lemma construct_other : forall c d d' k, construct nm c d = Ok d' -> ustr_eqb k kmod = false -> plookup k d' = plookup k d.
+  Lemma plookup_clean_all : forall v k d, plookup k (clean_all cp v d) = option_map (cp v k) (plookup k d).
   Proof.
-    intros c d d' k H N. unfold construct in H. destruct c as [v| |]; try (inversion H; reflexivity).
-    fold kmod in H. destruct (plookup kmod d) as [m|]; [|inversion H; reflexivity].
-    destruct (parse_ts nm v (Some m)) as [[l o]|e]; [|discriminate]. inversion H; subst.
-    now apply plookup_set_key_other.
+    intros v k d. induction d as [|[k0 x0] r IH]; [reflexivity|]. cbn [clean_all map fst snd plookup].
+    destruct (ustr_eqb k k0) eqn:E; [|exact IH]. apply ustr_eqb_eq in E. now subst.
   Qed.
 
-  Lemma construct_nodup : forall c d d', construct nm c d = Ok d' -> NoDup (keys d) -> NoDup (keys d').
+  Lemma keys_clean_all : forall v d, keys (clean_all cp v d) = keys d.
+  Proof. intros v d. unfold keys, clean_all. rewrite map_map. reflexivity. Qed.
+
+  (* the stored value of a property other than modified: as handed over for a dict, cleaned for an object *)
+  Definition stored (c : carrier) (k : ustring) (x : option pval) : option pval :=
+    match c with CObject v => option_map (cp v k) x | _ => x end.
+
+  Lemma construct_other : forall c d d' k, construct nm cp ck c d = Ok d' -> ustr_eqb k kmod = false ->
+    plookup k d' = stored c k (plookup k d).
+  Proof.
+    intros c d d' k H N. unfold construct in H. destruct c as [v| |]; try (inversion H; reflexivity).
+    destruct (ck v d); [discriminate|].
+    fold kmod in H. cbn [stored]. destruct (plookup kmod d) as [m|].
+    - destruct (parse_ts nm v (Some m)) as [[l o]|e]; [|discriminate]. inversion H; subst.
+      rewrite plookup_set_key_other by assumption. apply plookup_clean_all.
+    - inversion H; subst. apply plookup_clean_all.
+  Qed.
+
+  Lemma construct_dict : forall d d', construct nm cp ck CDict d = Ok d' -> d' = d.
+  Proof. intros d d' H. cbn in H. now inversion H. Qed.
+
+  Lemma construct_nodup : forall c d d', construct nm cp ck c d = Ok d' -> NoDup (keys d) -> NoDup (keys d').
   Proof.
     intros c d d' H N. unfold construct in H. destruct c as [v| |]; try (inversion H; subst; exact N).
-    destruct (plookup (u "modified") d) as [m|]; [|inversion H; subst; exact N].
-    destruct (parse_ts nm v (Some m)) as [[l o]|e]; [|discriminate]. inversion H; subst. now apply nodup_set_key.
+    destruct (ck v d); [discriminate|].
+    destruct (plookup (u "modified") d) as [m|].
+    - destruct (parse_ts nm v (Some m)) as [[l o]|e]; [|discriminate]. inversion H; subst.
+      apply nodup_set_key. now rewrite keys_clean_all.
+    - inversion H; subst. now rewrite keys_clean_all.
   Qed.
 
   (* serialized time of `modified` after construction = that of the raw value handed to the constructor *)
-  Lemma construct_modified : forall c d d' x v, construct nm c d = Ok d' ->
+  Lemma construct_modified : forall c d d' x v, construct nm cp ck c d = Ok d' ->
     (forall v0, c = CObject v0 -> v0 = v) ->
     plookup kmod d = Some x -> (exists r, parse_ts nm v (Some x) = Ok r) ->
     exists y, plookup kmod d' = Some y /\ truthy y = true /\ is_none y = false /\
               ser_value nm v (Some y) = ser_value nm v (Some x).
   Proof.
-    intros c d d' x v H CV PX [r PR]. unfold construct in H. fold kmod in H. rewrite PX in H.
+    intros c d d' x v H CV PX [r PR]. unfold construct in H. fold kmod in H.
     destruct c as [v0| |].
-    - rewrite (CV v0 eq_refl) in H. rewrite PR in H. destruct r as [l o]. inversion H; subst.
+    - destruct (ck v0 d); [discriminate|]. rewrite PX in H.
+      rewrite (CV v0 eq_refl) in H. rewrite PR in H. destruct r as [l o]. inversion H; subst.
       exists (PDt l o). rewrite plookup_set_key_same. repeat (split; [reflexivity|]). now apply ser_value_idem.
     - inversion H; subst. exists x. destruct (parse_ts_truthy v x r PR). auto.
     - inversion H; subst. exists x. destruct (parse_ts_truthy v x r PR). auto.
@@ -201,7 +226,7 @@ Section Proofs.
   Qed.
 
   Theorem nv_strict_lemma : forall c d ch now d' v, good_ver v -> NoDup (keys d) -> NoDup (keys ch) ->
-    check_versionable T c d = Ok v -> new_version T nm c d ch now = Ok d' -> later v d d'.
+    check_versionable T c d = Ok v -> new_version T nm cp ck c d ch now = Ok d' -> later v d d'.
   Proof.
     intros c d ch now d' v GV ND NC CV H.
     destruct (new_version_ok c d ch now d' H) as (v' & locked & old & CV' & _ & _ & _ & PO & Cases).
@@ -248,21 +273,33 @@ Section Proofs.
     destruct (plookup k kw); reflexivity.
   Qed.
 
-  Lemma construct_pget_other : forall c d d' k, construct nm c d = Ok d' -> ustr_eqb k kmod = false -> pget k d' = pget k d.
-  Proof. intros c d d' k H N. unfold pget. now rewrite (construct_other c d d' k H N). Qed.
-
+  (* every property other than modified holds what was requested -- as handed over in a dict, in its
+     cleaned form in an object *)
   Theorem nv_exact_lemma : forall c d ch now d', NoDup (keys d) -> NoDup (keys ch) ->
-    new_version T nm c d ch now = Ok d' ->
-    forall k, ustr_eqb k kmod = false -> pget k d' = requested ch d k.
+    new_version T nm cp ck c d ch now = Ok d' ->
+    forall k, ustr_eqb k kmod = false -> plookup k d' = stored c k (requested ch d k).
   Proof.
     intros c d ch now d' ND NC H k NK.
     destruct (new_version_ok c d ch now d' H) as (v & locked & old & _ & _ & _ & _ & _ & Cases).
     destruct Cases as [(s & nmv & dlt & PM & PS & TD & POS & CON) | (l & o & PM & FU & CON)].
-    - rewrite (construct_pget_other _ _ _ k CON NK). rewrite pget_drop_none by (now apply nodup_update).
+    - rewrite (construct_other _ _ _ k CON NK). f_equal. rewrite plookup_drop_none by (now apply nodup_update).
       now apply pget_update.
-    - rewrite (construct_pget_other _ _ _ k CON NK). rewrite pget_drop_none by (now apply nodup_update).
+    - rewrite (construct_other _ _ _ k CON NK). f_equal. rewrite plookup_drop_none by (now apply nodup_update).
       rewrite pget_update by (now apply nodup_kw_clock). unfold requested. rewrite plookup_app.
       destruct (plookup k ch); [reflexivity|]. cbn [plookup]. now rewrite NK.
+  Qed.
+
+  (* for a dict that is the Python-level get() *)
+  Corollary nv_exact_dict_lemma : forall d ch now d', NoDup (keys d) -> NoDup (keys ch) ->
+    new_version T nm cp ck CDict d ch now = Ok d' ->
+    forall k, ustr_eqb k kmod = false -> pget k d' = requested ch d k.
+  Proof.
+    intros d ch now d' ND NC H k NK. pose proof (nv_exact_lemma CDict d ch now d' ND NC H k NK) as E. cbn [stored] in E.
+    unfold pget. rewrite E. destruct (requested ch d k) as [x|] eqn:R; [|reflexivity].
+    assert (N : is_none x = false); [|now rewrite N].
+    unfold requested in R. destruct (plookup k ch) as [y|].
+    - destruct (is_none y) eqn:Ny; [discriminate|]. now inversion R; subst.
+    - now apply pget_some in R.
   Qed.
 
   (* ---- refusals ---- *)
@@ -273,7 +310,7 @@ Section Proofs.
   Qed.
 
   Theorem nv_unmodifiable_lemma : forall c d ch now k, In k (t_unmod T) -> has_key k ch = true ->
-    forall d', new_version T nm c d ch now <> Ok d'.
+    forall d', new_version T nm cp ck c d ch now <> Ok d'.
   Proof.
     intros c d ch now k I HK d' H.
     destruct (new_version_ok c d ch now d' H) as (v & locked & old & _ & _ & _ & EX & _).
@@ -281,7 +318,7 @@ Section Proofs.
   Qed.
 
   Theorem nv_sco_locked_lemma : forall c d ch now locked k, sco_locked T d = Ok locked -> In k locked -> has_key k ch = true ->
-    forall d', new_version T nm c d ch now <> Ok d'.
+    forall d', new_version T nm cp ck c d ch now <> Ok d'.
   Proof.
     intros c d ch now locked k SL I HK d' H.
     destruct (new_version_ok c d ch now d' H) as (v & locked' & old & _ & _ & SL' & EX & _).
@@ -296,8 +333,10 @@ Section Proofs.
     sco_locked T d = Ok contrib.
   Proof. intros d ty id contrib D Ty SC Id SH U5. unfold sco_locked. now rewrite D, Ty, SC, Id, SH, U5. Qed.
 
-  Theorem nv_identity_lemma : forall c d ch now d' k, NoDup (keys d) -> NoDup (keys ch) ->
-    new_version T nm c d ch now = Ok d' -> In k (t_unmod T) -> ustr_eqb k kmod = false -> pget k d' = pget k d.
+  (* an unmodifiable property holds what it held (in its cleaned form, in an object) *)
+  Theorem nv_identity_stored_lemma : forall c d ch now d' k, NoDup (keys d) -> NoDup (keys ch) ->
+    new_version T nm cp ck c d ch now = Ok d' -> In k (t_unmod T) -> ustr_eqb k kmod = false ->
+    plookup k d' = stored c k (pget k d).
   Proof.
     intros c d ch now d' k ND NC H I NK. rewrite (nv_exact_lemma c d ch now d' ND NC H k NK).
     destruct (new_version_ok c d ch now d' H) as (v & locked & old & _ & _ & _ & EX & _).
@@ -305,8 +344,22 @@ Section Proofs.
     unfold requested, has_key in *. destruct (plookup k ch); [discriminate|reflexivity].
   Qed.
 
+  (* ... which is the value itself when cleaning leaves the object's own, already clean, value alone
+     (always so for a dict) *)
+  Theorem nv_identity_lemma : forall c d ch now d' k, NoDup (keys d) -> NoDup (keys ch) ->
+    new_version T nm cp ck c d ch now = Ok d' -> In k (t_unmod T) -> ustr_eqb k kmod = false ->
+    (forall x, pget k d = Some x -> stored c k (Some x) = Some x) ->
+    pget k d' = pget k d.
+  Proof.
+    intros c d ch now d' k ND NC H I NK ST.
+    pose proof (nv_identity_stored_lemma c d ch now d' k ND NC H I NK) as E. unfold pget at 1. rewrite E.
+    destruct (pget k d) as [x|] eqn:P.
+    - rewrite (ST x eq_refl). apply pget_some in P as [_ N]. now rewrite N.
+    - destruct c; reflexivity.
+  Qed.
+
   Theorem supplied_modified_lemma : forall c d ch now d' v s, good_ver v -> NoDup (keys d) -> NoDup (keys ch) ->
-    check_versionable T c d = Ok v -> plookup kmod ch = Some s -> new_version T nm c d ch now = Ok d' ->
+    check_versionable T c d = Ok v -> plookup kmod ch = Some s -> new_version T nm cp ck c d ch now = Ok d' ->
     exists a b, ser_value nm v (version_time d) = Some a /\ ser_value nm v (Some s) = Some b /\
                 ser_value nm v (version_time d') = Some b /\ a < b.
   Proof.
@@ -328,64 +381,69 @@ Section Proofs.
   Qed.
 
   (* ---- revoked objects ---- *)
-  Lemma revoked_new_version : forall c d ch now, revoked_flag d = true -> forall d', new_version T nm c d ch now <> Ok d'.
+  Lemma revoked_new_version : forall c d ch now, revoked_flag d = true -> forall d', new_version T nm cp ck c d ch now <> Ok d'.
   Proof.
     intros c d ch now R d' H. destruct (new_version_ok c d ch now d' H) as (v & locked & old & _ & R' & _). congruence.
   Qed.
 
-  Theorem revoked_final_lemma : forall c d o, revoked_flag d = true -> forall d', apply_op T nm c d o <> New d'.
+  Theorem revoked_final_lemma : forall c d o, revoked_flag d = true -> forall d', apply_op T nm cp ck c d o <> New d'.
   Proof.
     intros c d o R d' H.
-    assert (K : forall ch n a, new_version T nm c d ch n <> Ok a) by (intros ch n a; now apply revoked_new_version).
+    assert (K : forall ch n a, new_version T nm cp ck c d ch n <> Ok a) by (intros ch n a; now apply revoked_new_version).
     destruct o; cbn [apply_op] in H.
-    - destruct (new_version T nm c d changes now) eqn:E; [now apply K in E|discriminate].
+    - destruct (new_version T nm cp ck c d changes now) eqn:E; [now apply K in E|discriminate].
     - unfold revoke in H. fold (revoked_flag d) in H. rewrite R in H. destruct c; discriminate.
-    - unfold add_markings in H. destruct (new_version T nm c d _ now) eqn:E; [now apply K in E|discriminate].
+    - unfold add_markings in H. destruct (new_version T nm cp ck c d _ now) eqn:E; [now apply K in E|discriminate].
     - unfold remove_markings in H. destruct (marking_list d); [discriminate|].
       destruct (negb _); [discriminate|].
       destruct (filter _ _).
-      + destruct (new_version T nm c d _ now) eqn:E; [now apply K in E|discriminate].
-      + destruct (new_version T nm c d _ now) eqn:E; [now apply K in E|discriminate].
-    - unfold clear_markings in H. destruct (new_version T nm c d _ now) eqn:E; [now apply K in E|discriminate].
-    - unfold set_markings, clear_markings in H. destruct (new_version T nm c d _ now1) eqn:E; [now apply K in E|discriminate].
+      + destruct (new_version T nm cp ck c d _ now) eqn:E; [now apply K in E|discriminate].
+      + destruct (new_version T nm cp ck c d _ now) eqn:E; [now apply K in E|discriminate].
+    - unfold clear_markings in H. destruct (new_version T nm cp ck c d _ now) eqn:E; [now apply K in E|discriminate].
+    - unfold set_markings, clear_markings in H. destruct (new_version T nm cp ck c d _ now1) eqn:E; [now apply K in E|discriminate].
   Qed.
 
-  Lemma revoke_ok : forall c d now d', revoke T nm c d now = Ok d' ->
-    new_version T nm c d [(u "revoked", PJ (JBool true))] now = Ok d'.
+  Lemma revoke_ok : forall c d now d', revoke T nm cp ck c d now = Ok d' ->
+    new_version T nm cp ck c d [(u "revoked", PJ (JBool true))] now = Ok d'.
   Proof.
     intros c d now d' H. unfold revoke in H. destruct c; try discriminate;
       destruct (match plookup (u "revoked") d with Some r => truthy r | None => false end); try discriminate; exact H.
   Qed.
 
-  Theorem revoke_sets_lemma : forall c d now d', NoDup (keys d) -> revoke T nm c d now = Ok d' -> revoked_flag d' = true.
+  Theorem revoke_sets_lemma : forall c d now d', NoDup (keys d) ->
+    (forall v0, c = CObject v0 -> truthy (cp v0 (u "revoked") (PJ (JBool true))) = true) ->   (* clean(True) is true *)
+    revoke T nm cp ck c d now = Ok d' -> revoked_flag d' = true.
   Proof.
-    intros c d now d' ND H. apply revoke_ok in H.
+    intros c d now d' ND CL H. apply revoke_ok in H.
     assert (NC : NoDup (keys [(u "revoked", PJ (JBool true))])) by (constructor; [tauto|constructor]).
     pose proof (nv_exact_lemma c d _ now d' ND NC H (u "revoked") eq_refl) as E.
     unfold requested in E. cbn [plookup] in E. rewrite ustr_eqb_refl in E. cbn [is_none] in E.
-    apply pget_some in E as [E _]. unfold revoked_flag. now rewrite E.
+    unfold revoked_flag. rewrite E. destruct c as [v0| |]; cbn [stored option_map]; [now apply CL|reflexivity|reflexivity].
   Qed.
 
   (* ---- no clock reading can make a legal operation fail ---- *)
   Lemma construct_total : forall c d x, plookup kmod d = Some x ->
-    (forall v0, c = CObject v0 -> exists r, parse_ts nm v0 (Some x) = Ok r) -> exists d', construct nm c d = Ok d'.
+    (forall v0, c = CObject v0 -> ck v0 d = None /\ exists r, parse_ts nm v0 (Some x) = Ok r) ->
+    exists d', construct nm cp ck c d = Ok d'.
   Proof.
-    intros c d x P H. unfold construct. fold kmod. rewrite P. destruct c as [v0| |]; eauto.
-    destruct (H v0 eq_refl) as [[l o] E]. rewrite E. eauto.
+    intros c d x P H. unfold construct. fold kmod. destruct c as [v0| |]; eauto.
+    destruct (H v0 eq_refl) as [A [[l o] E]]. rewrite A, P, E. eauto.
   Qed.
 
+  (* for an object: provided the class accepts the changed properties with any modified time *)
   Theorem nv_succeeds_lemma : forall c d ch v locked l o, check_versionable T c d = Ok v ->
     revoked_flag d = false -> sco_locked T d = Ok locked ->
     existsb (fun k => has_key k ch) (t_unmod T ++ locked) = false -> plookup kmod ch = None ->
     parse_ts nm v (version_time d) = Ok (l, Some o) ->
-    forall now, exists d', new_version T nm c d ch now = Ok d'.
+    (forall v0 l' o', c = CObject v0 -> ck v0 (drop_none (update d (ch ++ [(kmod, PDt l' o')]))) = None) ->
+    forall now, exists d', new_version T nm cp ck c d ch now = Ok d'.
   Proof.
-    intros c d ch v locked l o CV RV SL EX PM PO now. unfold new_version. rewrite CV.
+    intros c d ch v locked l o CV RV SL EX PM PO ACC now. unfold new_version. rewrite CV.
     fold (revoked_flag d). rewrite RV, SL, EX. fold (version_time d). rewrite PO. fold kmod. rewrite PM.
     assert (F : exists l' o', fudge v (l, Some o) now = Ok (l', o')).
     { unfold fudge, ts_diff. cbn [fst snd]. destruct v; [destruct (_ <? _)|destruct (_ <=? _)|destruct (_ <=? _)]; eauto. }
     destruct F as (l' & o' & F). rewrite F.
     apply construct_total with (PDt l' o'); [now apply plookup_kw_modified_clock|].
-    intros v0 _. rewrite parse_ts_dt. eauto.
+    intros v0 E. split; [now apply ACC|]. rewrite parse_ts_dt. eauto.
   Qed.
 End Proofs.
